@@ -485,11 +485,28 @@ Definition prop_direct_fetch (args : list bytes) : bytes :=
   | [] => bs "badargs"
   end.
 
+(* ServerKeys.PublicKey: [scenario {kid, at, docs:[doc]}; raw] -> nil | hex *)
+Definition run_public_key (args : list bytes) : bytes :=
+  match args with
+  | cfgb :: raws =>
+      match parse_json cfgb with
+      | None => bs "badconfig"
+      | Some cfg =>
+          match docs_of cfg raws with
+          | d :: _ => match public_key docT d (gs (bs "kid") cfg) (gz (bs "at") cfg) with
+                      | None => bs "nil" | Some [] => bs "nil" | Some k => hex_of_bytes k end
+          | [] => bs "nodoc"
+          end
+      end
+  | _ => bs "badargs"
+  end.
+
 Definition ops_C12 : list (bytes * (list bytes -> bytes)) :=
   [ (bs "C12.verify_jsons", run_verify_jsons);
     (bs "C12.was_valid_at", run_was_valid_at);
     (bs "C12.list_key_ids", run_list_key_ids);
     (bs "C12.check_keys", run_check_keys);
+    (bs "C12.public_key", run_public_key);
     (bs "C12.direct_fetch", run_direct_fetch);
     (bs "C12.perspective_fetch", run_perspective_fetch);
     (bs "C12.prop.check_keys", prop_check_keys);
